@@ -237,6 +237,9 @@ def handle (op : String) (args : Array String) : Option String :=
     match n.toNat? with
     | none => some "bad-op"
     | some now =>
+      -- the harness resolves relative timestamps against the clock it READS, not against this argument: an op whose
+      -- `now` is not a recent wall-clock reading (a shrunk one) does not describe what the harness executes
+      if now < 1600000000000 then some "bad-op" else
       match parseTs now ex, parseTs now vu, parseTs now at' with
       | some e, some v, some t =>
         let k : KeyRes := { key := [], expiredTS := e, validUntilTS := v }
@@ -261,9 +264,15 @@ def handle (op : String) (args : Array String) : Option String :=
     | some now =>
       match parseServerKeys now name vu vks oks, unhex kid, parseTs now at' with
       | some sk, some k, some t =>
-        some (match publicKey sk k t with
+        let showKey (o : Option Bytes) : String := match o with
           | some key => if key.isEmpty then "none" else "ok:" ++ hex key
-          | none => "none")
+          | none => "none"
+        -- specification: the property's validity clause applied to the response's entries (current key: at or
+        -- before valid_until_ts; old key: BEFORE its expired_ts)
+        let sp := match Spec.publicKeyAnswer sk k t with
+          | none => "unspecified:a current and an old key of that ID are both valid"
+          | some a => showKey a
+        some (showKey (publicKey sk k t) ++ "\t" ++ sp)
       | _, _, _ => some "bad-op"
   | "direct_fetch", [n, reqName, direct, notary, _impl] =>
     match n.toNat?, unhex reqName with
